@@ -13,7 +13,7 @@ use versatiles_pipeline::PipelineFactory;
 
 #[derive(Clone)]
 pub enum Src {
-	Mem { ts: TileSet, pyramid: Option<TileBBoxPyramid>, default_stream: bool },
+	Mem { ts: TileSet, pyramid: Option<TileBBoxPyramid>, default_stream: bool, yields: u32, open_yields: u32 },
 	File(PathBuf),
 }
 
@@ -29,7 +29,7 @@ impl Sources {
 		Sources::default()
 	}
 	pub fn add_mem(&mut self, name: &str, ts: &TileSet) {
-		self.map.insert(name.to_string(), Src::Mem { ts: ts.clone(), pyramid: None, default_stream: false });
+		self.map.insert(name.to_string(), Src::Mem { ts: ts.clone(), pyramid: None, default_stream: false, yields: 0, open_yields: 0 });
 	}
 	pub fn add(&mut self, name: &str, s: Src) {
 		self.map.insert(name.to_string(), s);
@@ -50,12 +50,16 @@ pub fn factory(sources: &Sources, data_dir: Option<&Path>) -> (PipelineFactory, 
 			match map.get(&key) {
 				None => Err(anyhow!("no such source: {filename}")),
 				Some(Src::File(p)) => get_reader(p.to_str().unwrap()).await,
-				Some(Src::Mem { ts, pyramid, default_stream }) => {
+				Some(Src::Mem { ts, pyramid, default_stream, yields, open_yields }) => {
+					for _ in 0..*open_yields {
+						tokio::task::yield_now().await;
+					}
 					let mut m = match pyramid {
 						Some(p) => MemSource::with_pyramid(ts, p.clone()),
 						None => MemSource::new(ts),
 					};
 					m.default_stream = *default_stream;
+					m.yields = *yields;
 					m.name = key.clone();
 					let (m, log) = m.recording();
 					logs.lock().unwrap().insert(key, log);
